@@ -503,6 +503,13 @@ def _sample_chain(  # noqa: PLR0912
             f"{chain_index + 1} failed.",
         )
         return state, adapter_states, exception
+    except KeyboardInterrupt as exception:
+        logger.exception(
+            f"Sampling manually interrupted for chain {chain_index + 1} while "
+            f"initialising adapters.",
+        )
+        _flush_memmap_chain_data(chain_traces, chain_stats)
+        return state, adapter_states, exception
     try:
         sample_index = 0
         with chain_iterator:
